@@ -468,7 +468,31 @@ func diffSnap(a, b snap) string {
 
 // 4. every localfs operation against a temp tree with sentinels outside the base: nothing
 // outside the base may be created, changed, removed or read.
+// c13Jailed reports whether this process may issue destructive filesystem operations whose
+// confinement is the very thing under test: only inside the driver's mount namespace, where
+// every filesystem but the scratch directory is read-only (./check: jail_cmd).  A change to
+// risor that breaks confinement turns RemoveAll("/..") into a removal of the host's root
+// directory; this happened once during development (seeded change C13-r2m2, base "." treated
+// as unrooted) and is why the probes are refused anywhere else.
+func c13Jailed() bool {
+	if os.Getenv("VERIF_JAIL") != "1" {
+		return false
+	}
+	for _, p := range []string{"/.verif-jail-probe", "/tmp/.verif-jail-probe"} {
+		if f, err := os.Create(p); err == nil {
+			f.Close()
+			os.Remove(p)
+			return false
+		}
+	}
+	return true
+}
+
 func c13LocalFS(e *Env, paths []string) {
+	if !c13Jailed() {
+		e.R.Note("localfs operations against a real directory tree were SKIPPED: the harness is not running inside the read-only mount namespace that ./check sets up, and these probes remove and overwrite whatever an unconfined filesystem lets them reach")
+		return
+	}
 	orig, _ := os.Getwd()
 	defer os.Chdir(orig)
 	// the base as an absolute path, and spelled relative to the process's working directory
@@ -504,8 +528,9 @@ func c13LocalFSWith(e *Env, paths []string, chdirTo, baseSpelling string, n int)
 	os.WriteFile(filepath.Join(outer, "a"), []byte("SECRET-OUTSIDE-A"), 0o644)
 	os.WriteFile(filepath.Join(outer, "baseX"), []byte("SECRET-SIBLING"), 0o644)
 	os.WriteFile(filepath.Join(base, "a", "in.txt"), []byte("inside"), 0o644)
+	oldTmp := os.Getenv("TMPDIR")
 	os.Setenv("TMPDIR", systmp)
-	defer os.Unsetenv("TMPDIR")
+	defer os.Setenv("TMPDIR", oldTmp)
 
 	given := base
 	label := "<tmp>/base"
